@@ -26,14 +26,15 @@ pub enum Base {
     Cwd(bool),
 }
 
-/// Makes the tree root the working directory for a `Base::Cwd` case; restores `/` when dropped
+/// Makes the tree root the working directory for a `Base::Cwd` case; restores the previous one when dropped
 /// (declare it *after* the `Scratch` so that it is dropped first).
-pub struct CwdGuard;
+pub struct CwdGuard(PathBuf);
 
 pub fn enter_cwd(base: &Base, s: &Scratch) -> Option<CwdGuard> {
     if let Base::Cwd(_) = base {
+        let back = std::env::current_dir().unwrap_or_else(|_| PathBuf::from("/"));
         if std::env::set_current_dir(&s.root).is_ok() {
-            return Some(CwdGuard);
+            return Some(CwdGuard(back));
         }
     }
     None
@@ -41,7 +42,9 @@ pub fn enter_cwd(base: &Base, s: &Scratch) -> Option<CwdGuard> {
 
 impl Drop for CwdGuard {
     fn drop(&mut self) {
-        let _ = std::env::set_current_dir("/");
+        if std::env::set_current_dir(&self.0).is_err() {
+            let _ = std::env::set_current_dir("/");
+        }
     }
 }
 
@@ -86,7 +89,15 @@ pub fn base_paths(base: &Base, s: &Scratch) -> (PathBuf, PathBuf) {
         Base::Abs => (root.clone(), root),
         Base::AbsSlash => (PathBuf::from(format!("{}/", root.display())), root),
         Base::AbsDot => (PathBuf::from(format!("{}/.", root.display())), root),
-        Base::Rel => (relative_from_cwd(&root).unwrap_or_else(|| root.clone()), root),
+        Base::Rel => {
+            // only if the relative spelling really names the tree root for this process
+            use std::os::unix::fs::MetadataExt;
+            let rel = relative_from_cwd(&root).filter(|r| match (std::fs::metadata(r), std::fs::metadata(&root)) {
+                (Ok(a), Ok(b)) => a.dev() == b.dev() && a.ino() == b.ino(),
+                _ => false,
+            });
+            (rel.unwrap_or_else(|| root.clone()), root)
+        },
         Base::Sub(p) => (root.join(p), root.join(p)),
         Base::Parent => {
             let p = root.parent().unwrap().to_path_buf();
@@ -94,6 +105,14 @@ pub fn base_paths(base: &Base, s: &Scratch) -> (PathBuf, PathBuf) {
         },
         Base::Cwd(slash) => (PathBuf::from(if *slash { "./" } else { "." }), root),
     }
+}
+
+/// number of `.` / `..` components in the invariant prefix of a glob, however they are spelled
+/// (`..`, `[.][.]`, `{..}`, `<.:2>`): the walk interprets them as native path components, so a
+/// check must know about every one of them (and never follow them out of the scratch directory)
+pub fn prefix_dot_components(g: &wax::Glob<'_>) -> usize {
+    let (pre, _) = g.clone().partition();
+    pre.to_string_lossy().split('/').filter(|c| *c == "." || *c == "..").count()
 }
 
 /// file and directory names that occur in the tree (used as literal texts of generated globs)
